@@ -26,9 +26,12 @@ MINIMUM = {'R13.1': 4, 'R13.2': 2, 'R13.3': 3, 'R13.4': 2, 'R13.5': 1, 'R13.6': 
 # rules of sibling properties that are necessary conditions of this one too
 # (evaluated by the sibling module on the same graphs, reported under this property)
 ALSO = {'C03': {'R03.1': ('the location offered is the decoded Path, decoded once', 'restore')},
- 'C09': {'R09.6': ('every *.trashinfo is offered (indices refer to the whole listing)',
+ 'C09': {'R09.3': ('the index restores the payload of that very entry', 'restore '),
+         'R09.6': ('every *.trashinfo is offered (indices refer to the whole listing)',
                    'restore:')},
- 'C19': {'R19.2': 'the listing is sorted with a total key'}}
+ 'C19': {'R19.1': ('an unreadable .trashinfo does not keep the others from being offered',
+                   'restore:'),
+         'R19.2': 'the listing is sorted with a total key'}}
 
 def check(ctx):
     b = ctx.graph('restore')
